@@ -4,6 +4,11 @@
   interpretation of the bytes); the theorems here cover the parts that are logic: the id list is the sorted
   permutation of the file's id map keys, fixed-offset ids round-trip, the rule offset modes, and that the month-
   day arithmetic of a yearly rule stays inside the month.
+  The rest of the file (Windows mapping, locations, version strings) and `validate()`:
+    C06Source.lean    `fromStreamX_stream` — the full decoding extends the container decoding of C20
+    C06Dict.lean      Python-dict lemmas (`dictInsert`, `dictGet?`, assignment loops)
+    C06Validate.lean  `sourceValid_iff` — `validate()` accepts exactly when the eight clauses of `Valid` hold
+    C06Maps.lean      `windowsToTzdb_canonical`, `tzdbToWindows_entries`, `tzdbToWindows_direct`
 -/
 import PyodaModel.ZoneBridge
 import PyodaProofs.Basic
